@@ -1,6 +1,6 @@
 """symbolic objects of the network layer (frames, headers, queues) for the interpreter"""
 import ast
-from ..absval import Const, Sym, Bytes, Seq, BitV, Lin, norm, const_of
+from ..absval import as_bitv, Const, Sym, Bytes, Seq, BitV, Lin, norm, const_of
 from ..interp import State, Ref, Limits, Model
 from ..engine import Interp
 from ..model import AnalysisError
@@ -157,7 +157,7 @@ def resolve_unpacked(v, depth=4):
     """follow struct.unpack(struct.pack(..)) chains back to the packed argument"""
     v = norm(v)
     while depth and isinstance(v, Sym) and v.attrs.get("unpack"):
-        fmt, k, buf = v.attrs["unpack"]
+        fmt, k, buf = v.attrs["unpack"][:3]
         hit = None
         for tag, _ln in getattr(buf, "parts", []):
             hit = find_pack(tag, fmt)
@@ -330,12 +330,41 @@ def _watched(st):
     return tuple(out)
 
 
-def radio_loop_key(nn):
+def _trace_print(st, kinds):
+    """fingerprint of the path's events of the given kinds (what per-path rules read): states that differ in them are never merged"""
+    out = []
+    for e in st.trace:
+        if e.kind in kinds:
+            fp = getattr(e, "_fp", None)
+            if fp is None:
+                fp = (e.kind, _fp_data(e.data))
+                try:
+                    e._fp = fp
+                except AttributeError:
+                    pass
+            out.append(fp)
+    return tuple(out)
+
+
+def _fp_data(x, depth=0):
+    if depth > 4:
+        return "..."
+    if isinstance(x, dict):
+        return tuple(sorted((str(k), _fp_data(v, depth + 1)) for k, v in x.items()))
+    if isinstance(x, (list, tuple)):
+        return tuple(_fp_data(v, depth + 1) for v in x)
+    if hasattr(x, "key") or isinstance(x, Ref):
+        return _canon(x)
+    return repr(x)[:60]
+
+
+def radio_loop_key(nn, trace_kinds=()):
+    """trace_kinds: event kinds whose per-path sequence the rules of the caller read (e.g. the `_write` summaries)"""
     def key(it, st, fr):
         regs = st.extra.get("regs", {})
         rk = tuple(sorted((r, _canon(x)) for r, x in regs.items() if r != 7))
         env = tuple(sorted((k, _canon(v)) for k, v in st.envs[fr.fid].items()))
-        return (rk, repr(st.extra.get("ce")), env, _watched(st))
+        return (rk, repr(st.extra.get("ce")), env, _watched(st), _trace_print(st, trace_kinds) if trace_kinds else ())
     return key
 
 
@@ -405,3 +434,29 @@ class NetNode:
         self.ck.analysed(func)
         self.last_it = it
         return outs
+
+
+def addr_digits(out, name="node_addr"):
+    """number of octal digits the path established for a symbolic address `name` (bits carry provenance (name, i)): the largest k such
+    that the path took a branch on `(addr >> 3(k-1)) != 0` as true - counted from the truth tests themselves, so it does not matter which
+    loop shape or helper performs them.  0 for the all-zero path."""
+    best = 0
+    for e in out.trace:
+        if e.kind not in ("cond", "known") or e.data[0] is not True:
+            continue
+        v = e.data[1]
+        if isinstance(v, tuple):
+            continue
+        b = as_bitv(norm(v)) if hasattr(v, "key") else None
+        if b is None:
+            continue
+        t0 = b.bits[0]
+        if not (isinstance(t0, tuple) and t0[0] == "s" and isinstance(t0[1], tuple) and t0[1][0] == name and isinstance(t0[1][1], int)):
+            continue
+        sh = t0[1][1]
+        if sh % 3:
+            continue
+        ok = all((t == 0) or (isinstance(t, tuple) and t[0] == "s" and t[1] == (name, sh + i) and not t[2]) for i, t in enumerate(b.bits))
+        if ok:
+            best = max(best, sh // 3 + 1)
+    return best
